@@ -134,7 +134,7 @@ def run(ctx):
         return
     cdir = os.path.join(common.CACHE, "c21")
     os.makedirs(cdir, exist_ok=True)
-    models = small_models(rng, 6 if thorough else 3) + [("meshbody", MESH_MODEL)]
+    models = small_models(rng, 6 if thorough else 2) + [("meshbody", MESH_MODEL)]
     obs, seen_keys = {}, {}
     variant_votes = {"asis": 0, "trymalloc": 0, "neither": 0}
     nops = ncomp = 0
@@ -161,6 +161,9 @@ def run(ctx):
                 sets.append(tuple(sorted(rng.sample(range(n + 4), rng.randint(1, 3)))))
             for regime in ("longjmp", "returning"):
                 for fs in sets:
+                    # every faulting run under a returning handler kills a child: quick keeps the single faults and pairs
+                    if regime == "returning" and not thorough and len(fs) > 2:
+                        continue
                     ops.append((scen, regime, ",".join(map(str, fs)) or "-", sizes))
         probe = [o for o in ops if o[1] == "longjmp" and o[2] in ("1", "0,1")]
         def mk(o, v):
